@@ -9,7 +9,7 @@ FEATURES = ("preemptive",)      # second harness target dir: open-coroutine-core
 ISOLATE = True                   # the monitor is a process-wide singleton; real signals; some cases crash
 TIMEOUT_MS = 20000
 HARNESS_JOBS = 4                 # real time and real signals: do not oversubscribe the machine
-LEVEL = "partial"
+LEVEL = "proof"
 SHRINK_KEY = None
 SHARD_SIZE = 40
 
